@@ -1,3 +1,6 @@
 import Mrm.Proofs.Atomic
 import Mrm.Proofs.Find
 import Mrm.Proofs.Rc
+import Mrm.Proofs.NoCompleted
+import Mrm.Proofs.Classify
+import Mrm.Proofs.NoCrash
